@@ -304,13 +304,16 @@ class UnitsAdapter:
                     dev('unit-eq', 'Unit(%r) == Unit(%r) is %s, specification: %s' % (u1.symbol, u2.symbol, got, want))
                 elif got and (hash(u1) != hash(u2) or len({u1, u2}) != 1):
                     dev('unit-hash', 'Unit(%r) == Unit(%r) but their hashes differ' % (u1.symbol, u2.symbol))
-        # quantities in two different units of a type WITHOUT reference unit: no common scale, no converter - sums and
+        # quantities in two units of a type WITHOUT reference unit that are built on DIFFERENT base units (p/a, q/a):
+        # no common scale, no converter - sums and
         # order comparisons raise UnitConversionError, == is False (C03 / C04), however the units were defined
         from quantity import UnitConversionError
         for (s1, su1, u1) in present:
             for (s2, su2, u2) in present:
                 if s1 >= s2 or su1['typ'] != su2['typ'] or stypes[su1['typ']]['ref'] != 'NONE' or u1 == u2:
                     continue
+                if su1['vec'] == su2['vec']:
+                    continue      # built on the same base units: whether such units convert by their scale is left open
                 q1, q2 = Q(3, u1), Q(2, u2)
                 for what, f in (('+', lambda: q1 + q2), ('-', lambda: q2 - q1), ('<', lambda: q1 < q2)):
                     try:
